@@ -183,7 +183,7 @@ class C04(core.Check):
     def correspondence(self, res, boost):
         jesse_env.setup()
         worlds = []
-        for t in range(self.budget(120, 3000, boost)):
+        for t in range(self.budget(300, 3000, boost)):
             w, _, nf, nc = self.run_sequence(res, self.rng.randint(3, 30 if not self.thorough else 60), lattice=True, oracle=False)
             worlds.append((w, {'seq': t}))
         self.replace_exits(res, worlds)
@@ -248,7 +248,7 @@ class C04(core.Check):
         jesse_env.setup()
         self.witness_sequences(res)
         self.replace_exits(res)
-        for t in range(self.budget(300, 8000, boost)):
+        for t in range(self.budget(800, 8000, boost)):
             lattice = t % 2 == 0
             w, verdict, nf, nc = self.run_sequence(res, self.rng.randint(3, 40 if not self.thorough else 80), lattice, oracle=True)
             res.seen(tuple(w.lines), nf > 0 and nc > 0)
